@@ -234,6 +234,9 @@ def scripted_specs():
     # the file that sorts last consists of the version line and the line terminator only (the last context line of its diff is an empty line)
     out.append(dict(base, vp="MAJOR.MINOR.PATCH", old="1.2.3", flags=["--patch"], files=[
         mk("zz_version.txt", ["{version}"], [[O(0)]]), mk("notes.txt", ["release {version}"], [[T("a")], [O(0)], [T("")], [T("")], [T("end")]])]))
+    # two patterns on one line, the one further RIGHT listed first in the configuration, the version grows in length (1.9.0 -> 1.10.0)
+    out.append(dict(base, vp="MAJOR.MINOR.PATCH", old="1.9.0", flags=["--minor"], files=[
+        mk("INSTALL.txt", ["(tag v{version})", "mylib-{version}.tar.gz"], [[T("download "), O(1), T(" "), O(0), T(" now")], [T("end")]])]))
     # the match of a later pattern ENCLOSES the match of an earlier one on one line (it is then skipped there) and stands apart from it on
     # another line; the version grows in length
     out.append(dict(base, vp="MAJOR.MINOR.PATCH", old="1.2.9", flags=["--patch"], files=[
